@@ -149,6 +149,7 @@ def main(argv=None):
         else:
             i += 1
     seed = int(os.environ.get("VERIF_SEED", "0") or 0)
+    os.environ["PYVC_TIER"] = tier
     t0 = time.time()
     try:
         mod = importlib.import_module(f"pyvc.contracts.{prop.lower()}")
